@@ -13,7 +13,7 @@ Theorem source_facts :
   Gen_Verify.no_cert_reqs_means_required = Some true /\ Gen_Verify.warning_rule = Some true /\
   Gen_Verify.system_store_only_without_ca = Some true /\ Gen_Verify.proxy_handshake_before_connect = Some true /\
   Gen_Verify.proxy_tls_settings = Some true /\ Gen_Verify.pyopenssl_context_shape = Some true /\
-  Gen_Verify.common_name_fallback_always_off = Some true.
+  Gen_Verify.common_name_fallback_always_off = Some true /\ Gen_Verify.common_name_signal_defaults_to_off = Some true.
 Proof. repeat split; reflexivity. Qed.
 Print Assumptions source_facts.
 
